@@ -138,6 +138,8 @@ def world():
     global _world
     if _world is None:
         _world = World()
+        from . import kwdict
+        kwdict.install(_world)
     return _world
 
 
